@@ -22,6 +22,7 @@ from pyvc.values import SObj, SStr, SInt, Opaque, StrSort, term, wrap
 REL = "onnxscript/_internal/builder.py"
 CL_NAME = "C18: 'every module parameter appears exactly once as an initializer whose name is the dotted module path, equal to the keys of state_dict()/named_parameters() prefixed with the root module's name'"
 CL_UNIQ = "C18: 'all value and node names are unique'"
+CL_VALID = "C18: 'A graph built imperatively through GraphBuilder/OpBuilder ... is a valid model that computes exactly the sequence of operator calls that was traced'"
 
 
 def _b():
@@ -769,3 +770,50 @@ def s_builder_call_inline(ctx):
 
 SCENARIOS.append(Scenario("C18.builder.call_inline", s_builder_call_inline, F(GB + "call_inline"),
                           trusted=["_inliner.instantiate(graph, inputs, attributes, prefix) clones the body on the given operands (onnx_ir Cloner)"]))
+
+
+def s_partition_history(ctx):
+    """BuilderBase._partition_inputs_attributes(schema, args, kwargs): the input / attribute split is made with the signature
+    OF THE GIVEN SCHEMA - on every call, whatever schemas were used before in the process (the same operator name has
+    different signatures in different opset versions: ReduceMean-13 takes `axes` as an attribute, ReduceMean-18 as an
+    input).  Two calls in a row with schemas of the same (domain, name) and different versions; plus schema None."""
+    import onnx_ir as ir
+    from onnxscript._internal import tape_builder as tb
+    from onnxscript._internal import param_manipulation
+    I = Interp(ctx)
+    self = SObj(tb.BuilderBase, "builder")
+    same_op = ctx.choose(2, "second schema is another operator") == 0
+
+    def schema(tag, name, ver):
+        s = SObj(object, f"schema_{tag}")
+        s.fields.update(domain="", name=name, since_version=ver)
+        return s
+    s1 = schema("first", "ReduceMean", 13)
+    s2 = schema("second", "ReduceMean" if same_op else "Add", 18)
+    I.models[ir.schemas.OpSignature.from_op_schema] = lambda interp, sch: ("signature of", sch)
+    seen = []
+
+    def m_sep(interp, sig, args, kwargs, **kw):
+        seen.append((sig, list(args), dict(kwargs), dict(kw)))
+        return ("inputs", len(seen)), {"attrs": len(seen)}
+    I.models[param_manipulation.separate_input_attributes_from_arguments] = m_sep
+    clo = I.closure_of(tb.BuilderBase._partition_inputs_attributes)
+    r0 = I.run_closure(clo, [self, None, ("a",), {"k": 1}], {})
+    ctx.check("C18.builder.partition.without_a_schema_arguments_pass_through", r0 == (("a",), {"k": 1}) and not seen, CL_VALID)
+    r1 = I.run_closure(clo, [self, s1, ("x", [1]), {"keepdims": 0}], {})
+    r2 = I.run_closure(clo, [self, s2, ("y", [2]), {"keepdims": 1}], {})
+    ok = len(seen) == 2
+    ctx.check("C18.builder.partition.one_split_per_call", ok, CL_VALID)
+    if not ok:
+        return
+    ctx.check("C18.builder.partition.split_uses_the_signature_of_the_given_schema_whatever_was_used_before",
+              seen[0][0] == ("signature of", s1) and seen[1][0] == ("signature of", s2),
+              CL_VALID + " — the same operator has different inputs / attributes in different opset versions")
+    ctx.check("C18.builder.partition.arguments_are_handed_over_unchanged_and_defaults_are_not_filled",
+              seen[0][1:3] == (["x", [1]], {"keepdims": 0}) and seen[1][1:3] == (["y", [2]], {"keepdims": 1})
+              and all(s[3] == {"fill_defaults": False, "allow_extra_args": False} for s in seen), CL_VALID)
+    ctx.check("C18.builder.partition.result_is_the_split", r1 == (("inputs", 1), {"attrs": 1}) and r2 == (("inputs", 2), {"attrs": 2}), CL_VALID)
+
+
+SCENARIOS.append(Scenario("C18.builder.partition_history", s_partition_history, [("onnxscript/_internal/tape_builder.py", "BuilderBase._partition_inputs_attributes")],
+                          trusted=["OpSignature.from_op_schema(schema) is the signature of that schema (onnx_ir)"]))
